@@ -102,6 +102,9 @@ type episode struct {
 	special []*scoin // coins with height-gated scripts (reorg.go)
 	vouchNext map[[32]byte]bool // replay / dedicated kinds: what the pool vouches for in the next candidate (pool.go)
 	ptxs    []*ptx // transactions offered to the real pool so far whose inputs are still unspent (realpool.go)
+	focus   *ptx   // realpool.go: the one transaction the next pool candidate is about (nil: any)
+	panicSeen string           // watchdog.go: the first panic of the real code recovered in this episode
+	lastDoc   func() replayDoc // watchdog.go: the document of the input the real code was given last
 }
 
 func newEpisode(r *Run, o *vlib.Oracle, g *vlib.Rng, opts epOpts) *episode {
@@ -147,7 +150,10 @@ func newEpisode(r *Run, o *vlib.Oracle, g *vlib.Rng, opts epOpts) *episode {
 }
 
 func (e *episode) close() {
-	e.k.Close()
+	if th := os.Getenv("VERIF_C04_TEST_HANG"); th != "" && e.nblocks > 0 && (th != "child" || e.r.log != nil) {
+		select {} // self-test of the stall watchdog (watchdog.go): the main goroutine blocks for ever here
+	}
+	e.closeGuarded() // watchdog.go: Chain.Close under a deadline (a recovered panic may have left a gocoin mutex locked)
 	e.closeAlloc()
 	if e.opts.RealPool {
 		chain.TrustedTxChecker = nil
@@ -167,7 +173,7 @@ func (e *episode) parseOn(raw []byte, parent *chain.BlockTreeNode, ref utxoMap) 
 	if bl.BuildTxList() != nil {
 		return nil
 	}
-	c := &cand{hash: bl.Hash.Hash[:], height: parent.Height + 1, time: bl.BlockTime(), mtp: parent.GetMedianTimePast()}
+	c := &cand{raw: raw, hash: bl.Hash.Hash[:], height: parent.Height + 1, time: bl.BlockTime(), mtp: parent.GetMedianTimePast()}
 	c.p2sh = true
 	c.wit = !e.opts.NoSegWit
 	c.csv = !e.opts.NoCSV && c.height >= e.opts.CSVAt // (CSVAt = 0: active from height 1)
@@ -284,6 +290,8 @@ func (e *episode) judge(kind string, raw []byte, fullDump bool) *outcome {
 	tA = time.Now()
 	setPool(c)
 	r.pending(pendingDoc{Kind: kind, Opts: e.opts, Candidate: hex.EncodeToString(raw), Vouched: c.vouchedIDs()})
+	e.lastDoc = func() replayDoc { return doc(oc) }
+	setDoc(e.lastDoc) // watchdog.go
 	res := e.submit(raw)
 	if !res.OK() && gerr == "script" {
 		// a verdict about scripts must not depend on the schedule of commitTxs' verification goroutines (multi.go)
@@ -337,6 +345,7 @@ func (e *episode) judge(kind string, raw []byte, fullDump bool) *outcome {
 	// a panic inside CheckBlock / AcceptBlock (recovered by chainkit.Submit) is never a legitimate way to refuse a block:
 	// the node would crash, or — recovered as here — stay with a half-applied block
 	if res.Panic != "" {
+		e.sawPanic(res.Panic)
 		r.PropFail("accept-panic", fmt.Sprintf("kind %q: Chain.CheckBlock+AcceptBlock panicked: %s (reference: %s)", kind, res.Panic, oc.ref), doc(oc))
 		bad = true
 	}
@@ -515,6 +524,7 @@ func main() {
 		return
 	}
 	r := &Run{Run: vlib.NewRun("C04")}
+	startWatchdog(r) // watchdog.go: a hang becomes a reported failure with a replay document
 	if pf := os.Getenv("VERIF_C04_PROF"); pf != "" {
 		f, _ := os.Create(pf)
 		pprof.StartCPUProfile(f)
@@ -587,8 +597,7 @@ func main() {
 	}
 	restoreStdout()
 	stopProf()
-	r.Finish("a case is one candidate block judged by real code, Lean model, Lean spec and Go reference on a generated chain state (distinct = distinct block bytes; configurations: plain / pool hook played by the harness / client/txpool as the pool / compressed records / checking and client record allocators / block object built on the network road or rebuilt from the client's disk cache), or one block of a branch walk (a block tree with several re-organisations; real code's active chain and full UTXO dump vs the Go reference's per-node coin maps), or one side-branch scenario (a stored side branch carrying one transaction that breaks / keeps one height-gated script rule overtakes the active chain; real code vs Go reference; distinct = distinct side-branch bytes), or one direct comparison of a sigop counter / GetBlockReward on a generated script / height (distinct = distinct input)",
-		"C04: Lean model of commitTxs/CheckTransaction/sigop counters/UnspentGet tied to the real Chain.CheckBlock+AcceptBlock by differential runs on chainkit chains; property predicate = independent sequential ConnectBlock (Go) cross-checked against the Lean spec")
+	r.Finish(finishRule, finishExpl) // watchdog.go
 }
 
 // runReplay: documents of episodes that run in a child process (child.go) are replayed in one.
